@@ -39,6 +39,33 @@ SectionOK(T, vp, fs, n, dn, dd, curves) ==
     /\ \A s \in used : SegAt(s) \in AllSegs(vp, fs, n, dn, dd)                                           \* joined across one face
     /\ \A s, t \in used : s # t => SegAt(s) # SegAt(t)                                                   \* each crossing segment once
     /\ Cardinality(used) = Cardinality(AllSegs(vp, fs, n, dn, dd))                                       \* none missing
+\* (evaluation helpers for large meshes: the crossed-edge set and the segment set are computed once and handed down)
+EdgeOfVertexIn(C, T, vp, n, dn, dd, w) ==
+    LET M == {e \in C : MatchesCross(T, w, CrossPoint(vp, e, n, dn, dd), 4)} IN
+    IF M = {} THEN <<-1, -1>> ELSE CHOOSE e \in M : TRUE
+SectionOKFast(T, vp, fs, n, dn, dd, curves, keep) ==
+    LET C == CrossedEdges(vp, fs, n, dn, dd)
+        CF == CrossedFaces(vp, fs, n, dn, dd)
+        AS == {FaceSeg(vp, fs[k], n, dn, dd) : k \in CF}
+        ce == [a \in 1..Len(curves) |-> [j \in 1..Len(curves[a]) |-> EdgeOfVertexIn(C, T, vp, n, dn, dd, curves[a][j])]]
+        segs == [a \in 1..Len(curves) |-> [j \in 1..(Len(curves[a]) - 1) |-> {ce[a][j], ce[a][j + 1]}]]
+        allsegs == UNION {{segs[a][j] : j \in 1..(Len(curves[a]) - 1)} : a \in 1..Len(curves)}
+        nsegs == LET RECURSIVE Sum(_) Sum(a) == IF a = 0 THEN 0 ELSE Sum(a - 1) + (Len(curves[a]) - 1) IN Sum(Len(curves)) IN
+    /\ \A a \in 1..Len(curves) : Len(curves[a]) >= 2 /\ \A j \in 1..Len(curves[a]) : ce[a][j] # <<-1, -1>>
+    /\ allsegs \subseteq AS                                             \* joined across one face
+    /\ Cardinality(allsegs) = nsegs                                     \* each crossing segment once
+    /\ \A k \in CF : k <= keep => FaceSeg(vp, fs[k], n, dn, dd) \in allsegs     \* none missing (among the faces that must be kept)
+\* the same when the caller's curve tolerance is larger than a whole loop: such a loop collapses to a single point and may be
+\* left out (faces with index above `keep` - 1-based - belong to parts that small); everything else is as before
+SectionOKSkip(T, vp, fs, n, dn, dd, curves, keep) ==
+    LET ce == [a \in 1..Len(curves) |-> CurveEdges(T, vp, fs, n, dn, dd, curves[a])]
+        slots == {<<a, j>> : a \in 1..Len(curves), j \in 1..(3 * Len(fs))}
+        used == {s \in slots : s[2] <= Len(curves[s[1]]) - 1}
+        SegAt(s) == {ce[s[1]][s[2]], ce[s[1]][s[2] + 1]} IN
+    /\ \A a \in 1..Len(curves) : Len(curves[a]) >= 2 /\ \A j \in 1..Len(curves[a]) : ce[a][j] # <<-1, -1>>
+    /\ \A s \in used : SegAt(s) \in AllSegs(vp, fs, n, dn, dd)
+    /\ \A s, t \in used : s # t => SegAt(s) # SegAt(t)
+    /\ \A k \in CrossedFaces(vp, fs, n, dn, dd) : k <= keep => \E s \in used : SegAt(s) = FaceSeg(vp, fs[k], n, dn, dd)
 ClosedCurve(T, vp, fs, n, dn, dd, c) == LET ce == CurveEdges(T, vp, fs, n, dn, dd, c) IN ce[1] = ce[Len(c)]
 AllClosed(T, vp, fs, n, dn, dd, curves) == \A a \in 1..Len(curves) : ClosedCurve(T, vp, fs, n, dn, dd, curves[a])
 
